@@ -154,6 +154,7 @@ def run(ctx):
     out = P.run_property(ctx, MASK, monitor, 'suspension', [
         ('G-exec', 200, 3000, dict(p_bad=0.4)),
         ('G-exec-twins', 80, 1200, dict(twins=True)),
+        ('G-exec-overlap', 80, 1200, dict(overlap=True)),
     ], nontrivial=lambda run: any(e['cmd']['susp'] for e in run.trace))
     import collections
     st = collections.Counter(out['dist'])
